@@ -344,6 +344,37 @@ func coqView(cs datatransfer.ChannelState, res *suiteResult) (out string) {
 			res.fail(monitorFailure{Property: "C19", Signature: "last-result-not-empty", What: "LastVoucherResult on an empty log is not the empty value"})
 		}
 	}
+	if res != nil {
+		chid := cs.ChannelID()
+		if cs.IsPull() != (chid.Initiator == cs.Recipient()) {
+			res.fail(monitorFailure{Property: "C19", Signature: "view:pull-vs-initiator", What: "IsPull disagrees with initiator == recipient"})
+		}
+		if chid.ID != cs.TransferID() || (chid.Responder != cs.Sender() && chid.Responder != cs.Recipient()) || chid.Initiator == chid.Responder {
+			res.fail(monitorFailure{Property: "C19", Signature: "view:channel-id", What: "ChannelID is not (initiator, responder, transfer id) of the two parties"})
+		}
+		if cs.SelfPeer() == chid.Initiator || cs.SelfPeer() == chid.Responder {
+			if cs.OtherPeer() == cs.SelfPeer() || (cs.OtherPeer() != cs.Sender() && cs.OtherPeer() != cs.Recipient()) {
+				res.fail(monitorFailure{Property: "C19", Signature: "view:other-peer", What: "OtherPeer is not the party that is not self"})
+			}
+		}
+		if cs.BothPaused() != (cs.InitiatorPaused() && cs.ResponderPaused()) {
+			res.fail(monitorFailure{Property: "C11", Signature: "view:both-paused", What: "BothPaused is not the conjunction"})
+		}
+		selfP := cs.ResponderPaused()
+		if cs.SelfPeer() == chid.Initiator {
+			selfP = cs.InitiatorPaused()
+		}
+		if cs.SelfPaused() != selfP {
+			res.fail(monitorFailure{Property: "C11", Signature: "view:self-paused", What: "SelfPaused is not the flag of the local role"})
+		}
+		if cs.Status() == datatransfer.Finalizing && !cs.ResponderPaused() {
+			res.fail(monitorFailure{Property: "C11", Signature: "view:finalizing-not-paused", What: "a responder awaiting finalization does not count as paused"})
+		}
+		vs0 := cs.Vouchers()
+		if len(vs0) > 0 && !cs.Voucher().Equals(vs0[0]) {
+			res.fail(monitorFailure{Property: "C19", Signature: "view:first-voucher", What: "Voucher() is not the first entry of the voucher log"})
+		}
+	}
 	return fmt.Sprintf("(mkView %s %s %s %s %s %s %s %s %s %s %s %s %s %s %s %s %s %s %s %s %s %s %s %s %s %s %s)",
 		coqChid(cs.ChannelID()), coqN(uint64(tokOfPeer(cs.SelfPeer()))), coqN(uint64(tokOfPeer(cs.OtherPeer()))),
 		coqN(uint64(tokOfPeer(cs.Sender()))), coqN(uint64(tokOfPeer(cs.Recipient()))), coqBool(cs.IsPull()),
@@ -597,6 +628,7 @@ func (r *fsmRig) runSteps(id int, label string, tid uint64, seed *channels.Verif
 	chid := r.create(tid, initTok, sTok, rTok, 1, 2, datatransfer.TypedVoucher{Type: "T1", Voucher: nodeOf(3)})
 	r.seed(chid, seed)
 	ncalls := len(r.env.snapshot())
+	nops0 := r.ds.nops()
 	out := fsmCaseOut{id: id, label: label, seed: coqChanRaw(seed, r.res), steps: steps}
 	for _, st := range steps {
 		out.evs = append(out.evs, st.ev)
@@ -632,6 +664,68 @@ func (r *fsmRig) runSteps(id int, label string, tid uint64, seed *channels.Verif
 	out.notifs = r.takeNotifs(chid)
 	all := r.env.snapshot()
 	out.calls = all[ncalls:]
+	// C17: every datastore write of this channel is announced exactly once, in order, with the
+	// record that was written; C19: voucher logs only grow, by at most one entry per event
+	var writes []*channels.VerifChannelState
+	key := r.keyOf[chid].String()
+	for _, o := range r.ds.ops()[nops0:] {
+		if o.Put && o.Key == key {
+			var ws channels.VerifChannelState
+			if err := ws.UnmarshalCBOR(bytes.NewReader(o.Val)); err == nil {
+				writes = append(writes, &ws)
+			}
+		}
+	}
+	{
+		// written records appear, in order, among the announced snapshots
+		j := 0
+		for _, w := range writes {
+			wv := coqView(channels.VerifFromInternal(*w), nil)
+			for j < len(out.notifs) && out.notifs[j].View != wv {
+				j++
+			}
+			if j == len(out.notifs) {
+				r.res.fail(monitorFailure{Property: "C17", CaseID: id, Signature: "write-not-announced",
+					What: "a record written to the datastore was never announced (or out of order)", Input: label})
+				break
+			}
+			j++
+		}
+		if n := len(out.notifs); n > 0 && out.notifs[n-1].View != coqView(channels.VerifFromInternal(*st), nil) {
+			r.res.fail(monitorFailure{Property: "C17", CaseID: id, Signature: "last-snapshot-not-final-state",
+				What: "the last announced snapshot differs from the durable record", Input: label})
+		}
+		prevV, prevR := len(seed.Vouchers), len(seed.VoucherResults)
+		ip, rp := seed.InitiatorPaused, seed.ResponderPaused
+		for _, n := range out.notifs {
+			nv, nr := len(n.St.Vouchers()), len(n.St.VoucherResults())
+			if nv < prevV || nr < prevR || nv > prevV+1 || nr > prevR+1 {
+				r.res.fail(monitorFailure{Property: "C19", CaseID: id, Signature: "log-not-append-only",
+					What: "a voucher log shrank or grew by more than one entry in one event", Input: label})
+			}
+			if nv == prevV+1 && n.Code != datatransfer.NewVoucher || nr == prevR+1 && n.Code != datatransfer.NewVoucherResult {
+				r.res.fail(monitorFailure{Property: "C19", CaseID: id, Signature: "log-grew-on-other-event",
+					What: "a voucher log grew on an event other than NewVoucher/NewVoucherResult", Input: label})
+			}
+			prevV, prevR = nv, nr
+			// C11: flags follow exactly the pause/resume actions of each party
+			switch n.Code {
+			case datatransfer.PauseInitiator:
+				ip = true
+			case datatransfer.ResumeInitiator:
+				ip = false
+			case datatransfer.PauseResponder, datatransfer.DataLimitExceeded:
+				rp = true
+			case datatransfer.ResumeResponder:
+				rp = false
+			}
+			if n.St.InitiatorPaused() != ip || n.St.ResponderPaused() != (rp || n.St.Status() == datatransfer.Finalizing) {
+				r.res.fail(monitorFailure{Property: "C11", CaseID: id, Signature: "flags-do-not-follow-actions:" + eventName(n.Code),
+					What: "pause flags differ from the pause/resume actions applied so far", Input: label})
+				break
+			}
+		}
+	}
 	// direct monitors (model independent)
 	r.monitorCase(id, label, seed, out.evs, st, out)
 	r.monitorCleanup(id, label, seed, steps, st, out)
@@ -719,7 +813,13 @@ func (r *fsmRig) monitorCase(id int, label string, seed *channels.VerifChannelSt
 		}
 	}
 	// C09: a terminal status is only reached with a cleanup run before it
-	if !isTerminal(seed.Status) && isTerminal(final.Status) {
+	injected := seed.Status == datatransfer.Cancelling || seed.Status == datatransfer.Failing || seed.Status == datatransfer.Completing
+	for _, e := range evs {
+		if e.Code == datatransfer.CleanupComplete {
+			injected = true // only the verif hook can send it from outside; the public API cannot
+		}
+	}
+	if !injected && !isTerminal(seed.Status) && isTerminal(final.Status) {
 		cleanups := 0
 		for _, c := range out.calls {
 			if c.Kind == "cleanup" {
@@ -990,6 +1090,61 @@ func runH1Cleanup(dir string, seedv uint64, tier string) {
 	res.Exhaustive = true
 	res.Rule = "exhaustive product: 16 non-terminal statuses x {Cancel, Error, Complete} x every event code known to the processor (33) sent while the cleanup handler is held at a gate inside env.CleanupChannel; every case non-trivial and distinct"
 	writeFsmCases(dir, "fsmcleanup", cases)
+	res.write(dir)
+	_ = rig.ch.Stop(context.Background())
+}
+
+// ---------- fsmpause: all interleavings of pause/resume actions by both parties ----------
+
+func runH1Pause(dir string, seedv uint64, tier string) {
+	res := newResult("fsmpause", seedv, tier)
+	rig := newFsmRig(res, 1, nil)
+	var cases []fsmCaseOut
+	id := 0
+	tid := uint64(3000000)
+	alpha := []fsmEv{{Code: datatransfer.PauseInitiator}, {Code: datatransfer.ResumeInitiator}, {Code: datatransfer.PauseResponder}, {Code: datatransfer.ResumeResponder}}
+	maxLen := 3
+	if tier == "thorough" {
+		maxLen = 5
+	}
+	for st := datatransfer.Requested; st <= datatransfer.AwaitingAcceptance; st++ {
+		if isTerminal(st) {
+			continue
+		}
+		var rec func(prefix []fsmEv)
+		rec = func(prefix []fsmEv) {
+			if len(prefix) > 0 {
+				tid++
+				id++
+				label := "pause-interleaving " + histLabel(st, prefix)
+				res.CaseLabels = append(res.CaseLabels, label)
+				if onlyCase == 0 || onlyCase == id {
+					seed := seedVariants(st, tid, 1)[id%4]
+					c := rig.runCase(id, label, tid, seed, append([]fsmEv(nil), prefix...))
+					cases = append(cases, c)
+					res.hist("status:" + statusName(st))
+					res.hist(fmt.Sprintf("len:%d", len(prefix)))
+					if len(prefix) >= 2 {
+						res.distinct(label)
+					}
+					if id%397 == 1 {
+						res.sample(map[string]interface{}{"case": label, "notifications": len(c.notifs)})
+					}
+				}
+			}
+			if len(prefix) == maxLen {
+				return
+			}
+			for _, a := range alpha {
+				rec(append(prefix, a))
+			}
+		}
+		rec(nil)
+	}
+	res.Cases = len(cases)
+	res.Exhaustive = true
+	res.Rule = fmt.Sprintf("exhaustive: every sequence of length <= %d over {PauseInitiator, ResumeInitiator, PauseResponder, ResumeResponder} from each of the 16 non-terminal statuses, rotating over 4 seeded record variants (both roles, both directions); non-trivial = at least 2 actions", maxLen)
+	writeFsmCases(dir, "fsmpause", cases)
 	res.write(dir)
 	_ = rig.ch.Stop(context.Background())
 }
